@@ -185,7 +185,7 @@ func honoured(tier string) []cfgCase {
 	var out []cfgCase
 	engines := []string{"gin", "echo", "mux", "chi", "fiber"}
 	versions := []string{"3.0.0", "3.1.0"}
-	perms := []string{"<none>", "", "0644", "644", "0600", "0777", "0000", "0400"}
+	perms := []string{"<none>", "", "0644", "644", "0600", "0777", "0000", "0400", "0664", "0666"}
 	pres := []string{"absent", "0644", "0600", "0755"}
 	pkgs := []string{"<none>", "", "routes", "api_gen"}
 	for _, e := range engines {
@@ -252,7 +252,7 @@ var engineImport = map[string]string{"gin": "github.com/gin-gonic/gin", "echo": 
 
 func Main(tier, replay string) {
 	run := core.NewRun("C20", tier)
-	syscall.Umask(0)
+	syscall.Umask(0o022) // the usual umask: configured permissions must be honoured regardless of it
 	scratch := scen.MkScratch("c20")
 	defer os.RemoveAll(scratch)
 	cases := append(append(violations(), optionals()...), honoured(tier)...)
@@ -455,9 +455,9 @@ func Main(tier, replay string) {
 	run.Set("configurations", len(cases))
 	run.Sample(map[string]any{"name": cases[0].Name, "features": cases[0].Feat})
 	run.Sample(map[string]any{"name": cases[len(cases)-1].Name, "features": cases[len(cases)-1].Feat})
-	run.Bound = fmt.Sprintf("%d configuration documents: %d violations of declared constraints (missing/null/empty/invalid enum/malformed url, e-mail, permission string, scheme type, location/wrong JSON kind), every single and pair of 12 optional fields removed (%d), 5 engines x 2 versions, 8 permission strings x 4 pre-existing file states, package names, 6 glob sets, 2 output path sets", len(cases), len(violations()), len(optionals()))
+	run.Bound = fmt.Sprintf("%d configuration documents: %d violations of declared constraints (missing/null/empty/invalid enum/malformed url, e-mail, permission string, scheme type, location/wrong JSON kind), every single and pair of 12 optional fields removed (%d), 5 engines x 2 versions, 10 permission strings x 4 pre-existing file states, package names, 6 glob sets, 2 output path sets", len(cases), len(violations()), len(optionals()))
 	run.Rule = "state = one configuration document over a fixed project with a decoy controller and (for violations) a trap file; transition = one run of the real CLI binary; validated = runs whose exit status, message, written files, modes, package clause, imports and spec sections were compared with the configuration"
-	run.Assumptions = []string{"constraints that are not declared in the configuration structs (e.g. contact/license URL syntax) are not judged", "umask 0"}
+	run.Assumptions = []string{"constraints that are not declared in the configuration structs (e.g. contact/license URL syntax) are not judged", "umask 022; without configured permissions a newly created file is expected to be 0644"}
 	os.RemoveAll(scratch)
 	run.Finish()
 }
